@@ -10,7 +10,8 @@ Driver for C18.  One request per line, fields separated by `|`, tokens inside a 
         spec = SequenceType matching of XPath 3.1 with the model's restriction as subtype relation
         (`-` when the type uses a name that is no atomic type: static error, not modelled by the spec);
         dom = value and type are inside the domain of the theorem `match_eq_spec`,
-        fp = trigger of finding F18p (the parser rejects or corrupts this legal sequence type).
+        fp = trigger of finding F18p (the parser rejects or corrupts this legal sequence type) on the tree without the
+        commits of branch fix-c18-5, fp2 = what is left of it with them; fpp / fpp2 the same for a parameter declaration.
 
   H|<xsd11 0/1>|<unused>|<pool: n value^n>|<op>;<op>;…   → `hist=<e>;<e>;…`   (judgement history on function items)
         op ::= jm <i> <ty> | ji <i> <ty> | jt <i> <ty> | ja <i> <ty> | c <i> <k> <ty> <ty> | p <i> <n> <0/1>^n
@@ -167,7 +168,7 @@ def judge (x : String) (cfg : NsCfg) (t v : String) : String :=
         | [.func sa sr], .func a r => if funcItemTestArg tables sa sr a r then "T" else "F"
         | _, _ => match convertArg tables xsd11 ty val with
           | .ok _ => "T" | .error .XPDY0050 => "F" | .error e => showRes (.error e)
-      s!"match={showRes m} inst={showRes i} treat={tr} spec={sp} dom={b01 (domT ty val)} fp={b01 ty.parserGap} fk={b01 ty.hasTypeArg} param={pr} fpp={b01 (ty.gapAt false false true)}"
+      s!"match={showRes m} inst={showRes i} treat={tr} spec={sp} dom={b01 (domT ty val)} fp={b01 ty.parserGap} fp2={b01 ty.parserGap2} fk={b01 ty.hasTypeArg} param={pr} fpp={b01 (ty.gapAt false false true)} fpp2={b01 (ty.gap2At true)}"
   | _, _ => "bad-judgement"
 
 open EPV.Gen.C18 in
